@@ -121,7 +121,7 @@ example : infer env (str% "foo") = .error .ioError ∧ infer env (str% ".") = .e
 /-- a Kaldi table rspecifier is a table, whatever follows the colon -/
 theorem table_rspecifier (e : Env) (name : Str) (h : tableMatch e.word name = true) :
     infer e name = .ok (str% "table") := by
-  simp [infer, inferForceAs, config, List.findSome?, Rule.apply, h]
+  simp [infer, inferForceAs, config, Rule.apply, h]
 
 example : infer env (str% "ark:foo.npy") = .ok (str% "table") := by decide
 
@@ -259,9 +259,10 @@ theorem unknown_force_as (e : Env) (isStream : Bool) (name fa : Str) (key : Key)
   have hres : resolveForceAs config e isStream name (some fa) = .ok fa := by
     cases isStream
     · rfl
-    · have : config.streamRejected.contains fa = false := by simp [config, a1, a8]
-      simp [resolveForceAs, this]
+    · have hmem : fa ∉ config.streamRejected := by simp [config, a1, a8]
+      simp [resolveForceAs, hmem]
   simp only [disp, dispatch, hres, bind, Except.bind, dispatchOn, hfind]
+  rfl
 
 example : (str% "WAV") ∉ forceAsLiterals ∧ (str% "WAV") ∉ env.sf ∧ (str% "") ∉ forceAsLiterals
     ∧ (str% "mp3") ∉ env.sf := by decide
@@ -290,7 +291,7 @@ theorem wav_reader (e : Env) (isStream : Bool) (name : Str) (key : Key) (dtype :
   cases isStream <;>
   · simp only [disp, dispatch, resolveForceAs, dispatchOn, config, List.find?, Cond.holds, bind, Except.bind]
     by_cases h1 : Reader.wavScipy ∈ e.missing <;> by_cases h2 : Reader.wavWave ∈ e.missing <;>
-      simp [Branch.run, callReader, info_wavScipy, info_wavWave, ReaderInfo.plan, ReaderInfo.keySel, h1, h2,
+      simp [Branch.run, onImportError, callReader, info_wavScipy, info_wavWave, ReaderInfo.plan, ReaderInfo.keySel, h1, h2,
         Except.map, bind, Except.bind, pure, Except.pure]
 
 /-- file names of this installation, end to end -/
@@ -449,8 +450,7 @@ theorem dtype_to_decoder : (infos.filter (fun i => match i.dtype with | .toDecod
 /-- every helper of the chain is one of the two kinds -/
 theorem infos_complete : infos.map (·.reader) = [.kaldiTable, .wavScipy, .wavWave, .hdf5, .npy, .npz, .torch,
     .sphere, .kaldiInput, .fromfile, .soundfile] ∧
-    ∀ a ∈ config.arms, match a.branch with
-      | .call i => i ∈ infos | .tryImport i j => i ∈ infos ∧ j ∈ infos | .assertStr i => i ∈ infos := by
+    ∀ a ∈ config.arms, ∀ i ∈ a.branch.infos, i ∈ infos := by
   decide
 
 /-- **`dtype_is_final_cast`**, through the whole of `read_signal`: whenever the call reaches one of the
@@ -472,7 +472,7 @@ theorem dtype_is_final_cast {α : Type} (e : Env) (P : Prims α) (isStream : Boo
     simp only [bind, Except.bind] at hp ⊢
     unfold dispatchOn at hp ⊢
     cases hfind : config.arms.find? (fun a => a.cond.holds e fa) with
-    | none => rw [hfind] at hp; cases hp
+    | none => simp [hfind] at hp
     | some arm =>
       rw [hfind] at hp
       simp only [] at hp ⊢
@@ -483,32 +483,22 @@ theorem dtype_is_final_cast {α : Type} (e : Env) (P : Prims α) (isStream : Boo
           (callReader e i key (some d) >>= fun p => p.run P) =
             (callReader e i key none >>= fun p => p.run P) >>= P.cast d := by
         intro i hi p hcp hrd
+        rw [callReader_reader e i key none p hcp] at hrd
+        have hin : i ∈ [info_wavScipy, info_wavWave, info_soundfile, info_npy, info_npz, info_torch, info_hdf5] := by
+          simp only [infos, List.mem_cons, List.not_mem_nil, or_false] at hi
+          rcases hi with rfl | rfl | rfl | rfl | rfl | rfl | rfl | rfl | rfl | rfl | rfl <;>
+            first | (simp; done) | (exfalso; revert hrd; decide)
+        obtain ⟨⟨g, hg⟩, hl⟩ := final_cast_readers i hin
         unfold callReader at hcp ⊢
         split
         · rename_i hmiss; rw [if_pos hmiss] at hcp; cases hcp
-        · rename_i hmiss
-          rw [if_neg hmiss] at hcp
-          have hreader : p.reader = i.reader := by
-            unfold ReaderInfo.plan at hcp
-            cases hk : i.keySel key with
-            | error err => rw [hk] at hcp; cases hcp
-            | ok sel =>
-              rw [hk] at hcp
-              cases hdt : i.dtype <;> rw [hdt] at hcp <;> simp [bind, Except.bind, pure, Except.pure] at hcp <;>
-                rw [← hcp]
-          rw [hreader] at hrd
-          have hin : i ∈ [info_wavScipy, info_wavWave, info_soundfile, info_npy, info_npz, info_torch, info_hdf5] := by
-            simp only [infos, List.mem_cons, List.not_mem_nil, or_false] at hi
-            rcases hi with rfl | rfl | rfl | rfl | rfl | rfl | rfl | rfl | rfl | rfl | rfl <;>
-              first | (simp; done) | (exfalso; revert hrd; decide)
-          obtain ⟨⟨g, hg⟩, hl⟩ := final_cast_readers i hin
-          exact final_cast_generic P i g hg hl key d hd
+        · exact final_cast_generic P i g hg hl key d hd
       have hmem := infos_complete.2 arm harm
       cases hb : arm.branch with
       | call i =>
         rw [hb] at hp hmem
         simp only [Branch.run] at hp ⊢
-        exact one i hmem p hp hr
+        exact one i (hmem i (by simp [Branch.infos])) p hp hr
       | assertStr i =>
         rw [hb] at hp hmem
         simp only [Branch.run] at hp ⊢
@@ -516,70 +506,34 @@ theorem dtype_is_final_cast {α : Type} (e : Env) (P : Prims α) (isStream : Boo
         | true => simp at hp
         | false =>
           simp only [Bool.false_eq_true, if_false] at hp ⊢
-          exact one i hmem p hp hr
+          exact one i (hmem i (by simp [Branch.infos])) p hp hr
       | tryImport i j =>
         rw [hb] at hp hmem
-        simp only [Branch.run] at hp ⊢
+        simp only [Branch.run, onImportError_eq] at hp ⊢
         -- whether the first import fails does not depend on dtype
-        have himp : ∀ dt, (callReader e i key dt = .error .importError) ↔ i.reader ∈ e.missing := by
-          intro dt
-          unfold callReader
-          constructor
-          · intro h
-            by_cases hm : i.reader ∈ e.missing
-            · exact hm
-            · exfalso
-              have hm' : e.missing.contains i.reader = false := by simpa using hm
-              rw [hm'] at h
-              simp only [Bool.false_eq_true, if_false] at h
-              unfold ReaderInfo.plan at h
-              cases hk : i.keySel key with
-              | error err =>
-                rw [hk] at h
-                unfold ReaderInfo.keySel at hk
-                cases hkm : i.key <;> rw [hkm] at hk <;> simp at hk
-                split at hk <;> simp at hk
-                cases h
-                cases hk
-              | ok sel =>
-                rw [hk] at h
-                cases hdt : i.dtype <;> rw [hdt] at h <;> simp [bind, Except.bind, pure, Except.pure] at h
-          · intro hm
-            have : e.missing.contains i.reader = true := by simpa using hm
-            simp [this]
         by_cases hm : i.reader ∈ e.missing
-        · have h1 := (himp none).2 hm
-          have h2 := (himp (some d)).2 hm
-          rw [h1] at hp
-          rw [h1, h2]
-          exact one j hmem.2 p hp hr
-        · have h1 : ¬ callReader e i key none = .error .importError := fun h => hm ((himp none).1 h)
-          have h2 : ¬ callReader e i key (some d) = .error .importError := fun h => hm ((himp (some d)).1 h)
-          have e1 : (match callReader e i key none with
-              | .error .importError => callReader e j key none | r => r) = callReader e i key none := by
-            split
-            · rename_i h; exact absurd h h1
-            · rfl
-          have e2 : (match callReader e i key (some d) with
-              | .error .importError => callReader e j key (some d) | r => r) = callReader e i key (some d) := by
-            split
-            · rename_i h; exact absurd h h2
-            · rfl
-          rw [e1] at hp
-          rw [e1, e2]
-          exact one i hmem.1 p hp hr
+        · have h1 := (callReader_importError_iff e i key none).2 hm
+          have h2 := (callReader_importError_iff e i key (some d)).2 hm
+          rw [if_pos h1] at hp
+          rw [if_pos h1, if_pos h2]
+          exact one j (hmem j (by simp [Branch.infos])) p hp hr
+        · have h1 : ¬ callReader e i key none = .error .importError :=
+            fun h => hm ((callReader_importError_iff e i key none).1 h)
+          have h2 : ¬ callReader e i key (some d) = .error .importError :=
+            fun h => hm ((callReader_importError_iff e i key (some d)).1 h)
+          rw [if_neg h1] at hp
+          rw [if_neg h1, if_neg h2]
+          exact one i (hmem i (by simp [Branch.infos])) p hp hr
 
 -- hypotheses are satisfiable: a stereo wav by name, a flac stream, an npz entry, an HDF5 dataset by key
-example : ∃ p, disp env false (str% "a.wav") none .none none = .ok p ∧ p.reader = .wavWave
-    ∧ p.steps = [.reshape] := ⟨_, by decide, by decide, by decide⟩
-example : ((disp env false (str% "a.wav") none .none (some (str% "float32"))).map (·.steps))
-    = .ok [.reshape, .cast] := by decide
-example : ∃ p, disp env true [] (some (str% "flac")) .none none = .ok p ∧ p.reader = .soundfile :=
-  ⟨_, by decide, by decide⟩
-example : ∃ p, disp env false (str% "a.npz") none (.str (str% "k")) none = .ok p ∧ p.reader = .npz :=
-  ⟨_, by decide, by decide⟩
-example : ∃ p, disp env true [] (some (str% "hdf5")) (.str (str% "a/b")) none = .ok p ∧ p.reader = .hdf5 :=
-  ⟨_, by decide, by decide⟩
+example : (disp env false (str% "a.wav") none .none none).map (fun p => (p.reader, p.steps))
+    = .ok (.wavWave, [.reshape]) := by decide
+example : (disp env false (str% "a.wav") none .none (some (str% "float32"))).map (fun p => (p.steps, p.finalCast))
+    = .ok ([.reshape, .cast], some (str% "float32")) := by decide
+example : (disp env true [] (some (str% "flac")) .none none).map (·.reader) = .ok .soundfile := by decide
+example : (disp env false (str% "a.npz") none (.str (str% "k")) none).map (fun p => (p.reader, p.key))
+    = .ok (.npz, .entry (.str (str% "k"))) := by decide
+example : (disp env true [] (some (str% "hdf5")) (.str (str% "a/b")) none).map (·.reader) = .ok .hdf5 := by decide
 
 /-- `_soundfile_read_signal` reads 16-bit PCM as int16 and 32-bit PCM as int32 (the stored sample type), float
 as float32, double as float64; everything it does not list – including unsigned 8-bit PCM, whose test compares
